@@ -28,15 +28,17 @@ func init() {
 	runner.Register(&runner.Check{
 		ID:    "C11",
 		Level: "exploration",
-		Rule: "case = (pattern, input, build variant). Patterns: every regex AST up to the tier's node bound over the atoms " +
-			"{a ab abc bc K ſ . [ab] \\d \\xff ^ $ \\A \\z (?i)} and constructors {concat, |, (…), (?:…), ?, *, +, {2}, (?i:…)} " +
-			"(one per printed form), a deeper level over a reduced atom set, every two-branch alternation of short sequences " +
-			"(shared-prefix factoring), and every @rx pattern of the bundled CRS. Inputs: every sequence of at most L symbols " +
-			"over the pattern's own alphabet (its literal bytes, a foreign byte, \\n, \\xff, a digit, case variants and Unicode " +
-			"fold partners where folding occurs); for CRS patterns a deterministic walk of the AST (each alternative once, " +
-			"repetitions 0/1/2) and all one-byte deletions, case flips, newline insertions of those. Each case is evaluated with " +
-			"the operator built with and without RxPreFilterEnabled; a subset is repeated through two WAFs differing only in " +
-			"SecRxPreFilter. distinct_nontrivial = distinct (variant, pattern) for which at least one input matched and one did not",
+		Rule: "case = (pattern, input, build variant default | coraza.rule.no_regex_multiline). Patterns: (1) every regex AST up to the tier's node bound " +
+			"(quick 4, thorough 5) over the atoms {a ab abc bc K ſ . [ab] \\d \\xff ^ $ \\A \\z (?i)} and constructors {concat (free), |, (…), ?, *, +, {2}, (?i:…)} " +
+			"with (?:…) inserted where precedence needs it, one per printed form; (2) one more level (quick 5, thorough 6) over the reduced atoms " +
+			"{a ab bc . \\A $ (?i)}; (3) every distinct @rx argument of the bundled CRS (explicit or implicit operator); (4) fixed witnesses. " +
+			"Inputs: every sequence of at most L symbols over the pattern's own alphabet (its literal bytes, a foreign byte, \\n, \\xff, a digit, " +
+			"case variants and Unicode fold partners where folding occurs; quick L=4 up to size 3 and L=3 at size 4; thorough L=4 up to size 4, L=2 at size 5) " +
+			"and, from size 4 on and for CRS patterns, inputs derived from the pattern: a deterministic walk of the AST (each alternative once, repetitions 0/1/2), " +
+			"padded, plus all one-byte deletions, case flips and newline insertions of those (thorough, CRS: also byte substitutions and two-byte deletions). " +
+			"Each case is evaluated with the operator built with and without RxPreFilterEnabled (capturing; up to size 3 and for CRS also non-capturing); " +
+			"all patterns up to size 3, the CRS patterns and the witnesses are repeated through two WAFs differing only in SecRxPreFilter. " +
+			"distinct_nontrivial = distinct (variant, pattern) for which at least one input matched and one did not",
 		Assumptions: []string{
 			"the prefilter decision depends only on (pattern, input bytes, build tag); the operator keeps no state between evaluations",
 			"an unset capture and an empty capture are the same observation (a transaction resets TX.0-9 to \"\" before each rule)",
